@@ -34,7 +34,7 @@ func runC15(rc *RunCtx) {
 		ln.AmbiguousPct = 15
 	}
 	fee := []uint{0, 100}[T.Choose("cfg.fee", 2)]
-	rc.S.Policy = T.Choose("cfg.policy", 2)
+	rc.S.Policy = T.Choose("cfg.policy", 3)
 	rc.NewMintWorld(ln, MintOpts{Fee: fee})
 	rc.W.RespellPct = 8 // some outputs travel as upper-case or uncompressed points: signed, stored and restored under the spelling sent
 	m := NewMW(rc, "A")
